@@ -56,6 +56,16 @@ def check(ix, rep):
     rep.floor('horizon + pastifier dispatch cells', n1 + n2, 76)
     nh, deltas = pastify.check_horizon(ix, rep, hcls, pcls)
     nd, consumed = pastify.check_delay(ix, rep, pcls)
+    # the operators the rewrite produces (once, historically, since, precedes [a,b]) compute the windows the rewrite relies on
+    from sa.rules import windowrule
+    from sa import model as M_
+    on = {m.kind: m for m in M_.standard_monitors(ix)}['discrete-online']
+    nw, _w = windowrule.check_online(ix, rep, on, which=('R-WINDOW',))
+    rep.floor('bounded online operations whose window was derived', nw, 4)
+    nhd = pastify.check_horizon_dimension(ix, rep, hcls)
+    rep.floor('next handlers checked for the unit of their look-ahead', nhd, 2)
+    nrt = pastify.check_roundtrip(ix, rep, pcls)
+    rep.floor('attributes re-fed to a node constructor by the pastifier', nrt, 3)
     no = pastify.check_origin(ix, rep, pcls)
     rep.floor('past operators checked for samples before the origin', no, 10)
     rep.floor('horizon handlers interpreted', nh, 33)
